@@ -22,6 +22,7 @@ const (
 	aFailPartial       // fails but also returns an execution
 	aNilBs             // returns an execution without bindings (a guard's rejection)
 	aNilExe            // returns neither an execution nor an error
+	aFailInPlace       // deletes a binding from the map it was given, then fails, returning that map
 	aKinds
 )
 
@@ -72,7 +73,7 @@ func bindingsOpts(pooled bool, width int) verif.Opts {
 // smallBindingsOpts / smallMsgOpts: the smallest inputs that still exercise variables, permanent names,
 // strings and numbers (used where the subject is purity or totality rather than the matching rule).
 func smallBindingsOpts() verif.Opts {
-	return verif.Opts{Depth: 1, Width: 1, Finite: true, NoVar: true, Pool: []string{"?x", "p!"}, ValPool: []string{"n1"}, Leaf: verif.TStr | verif.TF64}
+	return verif.Opts{Depth: 1, Width: 1, Finite: true, NoVar: true, Pool: []string{"?x", "p!", "?<n"}, ValPool: []string{"n1"}, Leaf: verif.TStr | verif.TF64}
 }
 
 func smallMsgOpts() verif.Opts {
@@ -98,7 +99,7 @@ func newStubSized(name string, allowed []int, maxEmits int, pooled bool, small b
 		case aSet:
 			s.key = anyName(name+".key", names)
 			s.val = "v"
-		case aDel:
+		case aDel, aFailInPlace:
 			s.key = anyName(name+".key", names)
 		case aReplace:
 			s.repl = match.Bindings{"r": 1.0}
@@ -116,7 +117,7 @@ func newStubSized(name string, allowed []int, maxEmits int, pooled bool, small b
 			vo.ValPool = poolValues
 		}
 		s.val = verif.AnyJSON(name+".val", vo)
-	case aDel:
+	case aDel, aFailInPlace:
 		s.key = anyName(name+".key", names)
 	case aReplace:
 		s.repl = match.Bindings(verif.AnyMap(name+".repl", bindingsOpts(pooled, 1)))
@@ -157,6 +158,10 @@ func (s *stubSpec) action(log *stubLog) Action {
 			exe = NewExecution(nil)
 		case aNilExe:
 			return nil, nil
+		case aFailInPlace:
+			delete(in, s.key)
+			exe = NewExecution(in)
+			err = errors.New("stub " + s.name + " failed")
 		}
 		for i := 0; i < s.emits; i++ {
 			exe.AddEmitted(map[string]interface{}{"from": s.name, "n": float64(i)})
@@ -199,6 +204,10 @@ func (s *stubSpec) rawOutcome(in match.Bindings) (bs match.Bindings, haveExe boo
 		return in.Copy(), true, true
 	case aNilBs:
 		return nil, true, false
+	case aFailInPlace:
+		out := in.Copy()
+		delete(out, s.key)
+		return out, true, true
 	}
 	return nil, false, false
 }
@@ -208,6 +217,7 @@ var (
 	kindsAction     = []int{aIdent, aSet, aDel, aReplace, aFail, aFailPartial, aNilBs}
 	kindsGuard      = []int{aIdent, aSet, aNilBs, aFail}
 	kindsAll        = []int{aIdent, aSet, aDel, aReplace, aFail, aFailPartial, aNilBs, aNilExe}
+	kindsC18        = []int{aIdent, aSet, aDel, aReplace, aFail, aFailPartial, aNilBs, aFailInPlace}
 )
 
 // ---- small compiled specs ----
@@ -218,6 +228,7 @@ type specOpts struct {
 	noNilBranches bool
 	patMode    int  // 0 no patterns, 1 vocabulary, 2 lazy JSON
 	fixedTarget bool // every target is "n1"
+	targetVars  bool // targets are "@k" / "@x" / "n1"
 	fixedErr   bool // ActionErrorBranches=false, ActionErrorNode=""
 	branches   int // max branches of the current node
 	patDepth   int
@@ -283,9 +294,9 @@ func buildSpec(o specOpts) *builtSpec {
 				// no pattern: the branch always applies
 			} else if o.patMode == 1 {
 				// small vocabulary over the two-letter key alphabet {a,b} and the variable ?x
-				nv := 5
+				nv := 6
 				if o.withInvalid {
-					nv = 6
+					nv = 7
 				}
 				switch verif.Choose(name+".vocab", nv) {
 				case 0:
@@ -297,6 +308,8 @@ func buildSpec(o specOpts) *builtSpec {
 					br.Pattern = map[string]interface{}{"a": verif.AnyJSON(name+".const", verif.Opts{Depth: 0, Finite: true, NoVar: true})}
 				case 4:
 					br.Pattern = map[string]interface{}{"b": "?y", "a": "?x"}
+				case 5:
+					br.Pattern = map[string]interface{}{"a": "?<n"} // inequality against a bound number
 				default:
 					br.Pattern = map[string]interface{}{"?v": 1.0, "a": 2.0} // property variable with other keys: an error
 				}
